@@ -186,6 +186,7 @@ func TestRun(t *testing.T) {
 	runTCP(rec, filter(cases, "tcp"))
 	runLibraryHandlers(rec, wireValues)
 	runBlockwiseUploads(rec, []uint32{0xffffffff, 0, 2, 8, 16, 10, 18, 24, 26, 127})
+	optionlessAfterNoResponse(rec)
 	rec.Count("handlers_that_took_the_request_over_and_released_it", ownedHandlers.Load())
 	rec.SetExhaustive(true)
 	rec.Sample(cases[0])
